@@ -19,6 +19,10 @@
 (*                             Matches: an integral real may be an integer)  *)
 (*   JudgeSame(opsA, opsB)     two document-side operation lists denote the  *)
 (*                             same operations (decode(encode(x)) vs x)      *)
+(*   Domain(ops)               where encode and decode must agree: core      *)
+(*                             (encode succeeds, decode returns x),          *)
+(*                             refusable (encode refuses or decode returns x)*)
+(*                             or outside the statement                      *)
 (***************************************************************************)
 EXTENDS Syntax
 
@@ -73,16 +77,27 @@ OpsOf(j) == [i \in 1..Len(j) |-> Operation(j[i].op, [n \in 1..Len(j[i].args) |->
 -----------------------------------------------------------------------------
 (* document side against file side *)
 
+\* A document-side real whose f32 is not finite (the harness marks it `nonfinite`) denotes no PDF number.
+IsNonFinite(o) == o.k = "real" /\ "nonfinite" \in DOMAIN o
+RECURSIVE HasNonFinite(_)
+HasNonFinite(o) ==
+    IF o.k = "real" THEN IsNonFinite(o)
+    ELSE IF o.k = "arr" THEN \E i \in 1..Len(o.v) : HasNonFinite(o.v[i])
+    ELSE IF o.k \in {"dict", "stream"} THEN \E key \in DOMAIN o.v : HasNonFinite(o.v[key])
+    ELSE FALSE
+
 \* an inline image is held by lopdf as a stream object, whose dictionary carries the Length that
 \* Stream::new adds; the image in the content stream has no such entry
 ArgMatches(d, f) ==
-    IF d.k = "stream" THEN f.k = "stream" /\ MatchesDictExcept(d.v, f.v, {NameLength}) /\ d.w = f.w
+    IF HasNonFinite(d) THEN FALSE                     \* no token denotes it
+    ELSE IF d.k = "stream" THEN f.k = "stream" /\ MatchesDictExcept(d.v, f.v, {NameLength}) /\ d.w = f.w
     ELSE Matches(d, f)
 
 \* document side against document side (both carry rounding intervals, which identify the f32)
 RECURSIVE DocSame(_, _)
 DocSame(a, b) ==
-    IF a.k = "real" THEN
+    IF IsNonFinite(a) \/ (b.k = "real" /\ IsNonFinite(b)) THEN a = b          \* the same infinity / the same NaN bits
+    ELSE IF a.k = "real" THEN
         IF b.k = "real" THEN a.lo = b.lo /\ a.hi = b.hi /\ (a.neg = b.neg \/ (a.lo.ip = <<0>> /\ a.lo.fp = <<>>))
         \* an integral real may return as an integer: the integer must denote the same f32
         ELSE IF b.k = "int" THEN RealTokMatches(a, b)
@@ -118,4 +133,58 @@ JudgeDecode(opsDoc, bytes) == JudgeAgainst(opsDoc, ReadOps(bytes))
 VerbatimEolExplains(opsDoc, bytes) == JudgeAgainst(opsDoc, ReadOpsV(bytes, TRUE)).v = "ok"
 
 JudgeSame(opsA, opsB) == Compare(opsA, opsB, DocSame)
+
+-----------------------------------------------------------------------------
+(* The domain on which encode and decode must agree.                                               *)
+(*                                                                                                 *)
+(* C14 quantifies over every operation whose operator is a non-empty string over the alphabet the   *)
+(* parser documents (ASCII letters, star, single and double quote) and whose operands are direct    *)
+(* objects nested arbitrarily.  Three kinds of such operations cannot, or need not, be carried by a  *)
+(* content stream:                                                                                   *)
+(*   - "unwritable" operators: the words null, true and false denote objects (7.3.2, 7.3.9), BI      *)
+(*     always opens an inline image and ID / EI only occur inside one (8.9.7): no byte sequence      *)
+(*     means "the operator null" or "BI with these operands".                                        *)
+(*   - operands that denote no PDF object: a real that is not finite (7.3.3).                         *)
+(*   - nesting beyond what the implementation reads: an implementation limit (Annex C) is legitimate *)
+(*     above CoreNest levels of arrays / dictionaries.                                                *)
+(* Core domain: everything else -- encode must succeed and decode(encode(x)) = x.  On the rest       *)
+(* ("refusable") encode and decode must still AGREE: either encode refuses (returns an error) or    *)
+(* the bytes it writes decode to x.  Writing bytes that decode to something else, or to nothing, is  *)
+(* a violation everywhere.  Operators outside the alphabet (d0, a-b, the empty string) and operands  *)
+(* that are not direct objects (references, streams other than the one of an inline image) are       *)
+(* outside the statement.                                                                             *)
+OpAlphabet == (65..90) \cup (97..122) \cup {42, 39, 34}
+IsOperatorString(op) == op # <<>> /\ \A i \in 1..Len(op) : op[i] \in OpAlphabet
+CoreNest == 32
+
+IsInlineOp(o) == o.op = KwBI /\ Len(o.args) = 1 /\ o.args[1].k = "stream"
+Unwritable(o) == o.op \in {KwNull, KwTrue, KwFalse, KwID, KwEI} \/ (o.op = KwBI /\ ~IsInlineOp(o))
+
+RECURSIVE NestDepth(_)
+NestDepth(o) ==
+    LET mx(S) == IF S = {} THEN 0 ELSE CHOOSE x \in S : \A y \in S : y <= x IN
+    IF o.k = "arr" THEN 1 + mx({NestDepth(o.v[i]) : i \in 1..Len(o.v)})
+    ELSE IF o.k = "dict" THEN 1 + mx({NestDepth(o.v[key]) : key \in DOMAIN o.v})
+    ELSE IF o.k = "stream" THEN mx({NestDepth(o.v[key]) : key \in DOMAIN o.v})      \* inline image entries are not bracketed
+    ELSE 0
+
+RECURSIVE IsDirect(_)
+IsDirect(o) ==
+    IF o.k = "arr" THEN \A i \in 1..Len(o.v) : IsDirect(o.v[i])
+    ELSE IF o.k = "dict" THEN \A key \in DOMAIN o.v : IsDirect(o.v[key])
+    ELSE o.k \notin {"ref", "stream"}
+
+\* [cls |-> "core" | "refusable" | "outside", why |-> set of reasons]
+Domain(ops) ==
+    LET idx == 1..Len(ops)
+        args(i) == {ops[i].args[n] : n \in 1..Len(ops[i].args)}
+        outside == \E i \in idx : \/ ~IsOperatorString(ops[i].op)
+                                   \/ (IF IsInlineOp(ops[i]) THEN \E key \in DOMAIN ops[i].args[1].v : ~IsDirect(ops[i].args[1].v[key])
+                                       ELSE \E a \in args(i) : ~IsDirect(a))
+        why == (IF \E i \in idx : Unwritable(ops[i]) THEN {"unwritable-operator"} ELSE {})
+               \cup (IF \E i \in idx : \E a \in args(i) : HasNonFinite(a) THEN {"nonfinite-real"} ELSE {})
+               \cup (IF \E i \in idx : \E a \in args(i) : NestDepth(a) > CoreNest THEN {"nesting-above-core"} ELSE {})
+    IN IF outside THEN [cls |-> "outside", why |-> {}]
+       ELSE IF why # {} THEN [cls |-> "refusable", why |-> why]
+       ELSE [cls |-> "core", why |-> {}]
 =============================================================================
